@@ -88,6 +88,8 @@ def gen_case(rng, backend, realtime, big_ok=True, nops=None):
         node = rng.randrange(nodes)
         if k < 0.30 or not ops:
             ops.append({"op": "reg", "n": node, "rec": rand_rec(rng, rng.choice(tids), "node-%d" % node, big_ok)})
+            if rng.random() < 0.2:
+                ops[-1]["carry"] = True   # the struct already carries the stamps of an earlier life (re-published / re-homed record)
         elif k < 0.66:
             ops.append({"op": "look", "n": node, "tid": rng.choice(tids)})
         elif k < 0.76:
@@ -507,10 +509,10 @@ def run(ctx, only_cases=None, only_probes=None):
     if only_cases is not None:
         cases = only_cases
         probes, invalid = list(only_probes or []), []
-        bridges = [p for p in probes if p.get("stream") in ("bridge", "forward")]
+        bridges = [p for p in probes if p.get("stream") in ("bridge", "forward", "flight")]
         concs = [p for p in probes if p.get("stream") in ("conc", "sweep") and p.get("way") != "gated"]
         gated = [p for p in probes if p.get("stream") == "conc" and p.get("way") == "gated"]
-        probes = [p for p in probes if p.get("stream") not in ("bridge", "forward", "conc", "sweep")]
+        probes = [p for p in probes if p.get("stream") not in ("bridge", "forward", "flight", "conc", "sweep")]
     else:
         cases = load_corpus() + directed_cases(rng) + fault_directed()
         n_virtual = 3000 if thorough else 220
@@ -523,6 +525,9 @@ def run(ctx, only_cases=None, only_probes=None):
         cases += poll_cases(rng, 24 if thorough else 6)
         bridges = bridge_cases(rng, thorough)
         bridges += forward_cases(rng, thorough)
+        # every lookup answers from its own storage read: lookup #1 parked after its Get, remove / re-home, lookup #2 started afterwards
+        fr1 = {"tunnel": hexs("tun-flight"), "mapping": hexs("pm"), "secret": hexs("k"), "node": hexs("node-a"), "src": 1, "dst": 2, "host": hexs("h"), "port": 22}
+        bridges += [{"backend": "memory", "stream": "flight", "way": w_, "recs": [fr1, dict(fr1, node=hexs("node-c"))], "ttl_ms": 0} for w_ in ("remove", "rehome")]
         concs, gated = conc_cases(rng, thorough)
         concs += sweep_cases(rng, thorough)
         invalid = invalid_cases(rng, 120 if thorough else 30)
@@ -560,7 +565,7 @@ def run(ctx, only_cases=None, only_probes=None):
             continue
         reported.add(key)
         what = ("real SessionManager.handleCrossNodeTargetConnection/forwardToSourceNode + TunnelConnectionManager" if c["stream"] == "forward"
-                else "real SessionManager.startSourceBridge/runBridgeLifecycle with the routing table")
+                else "real tunnel.RoutingTable under a gated schedule of storage calls" if c["stream"] == "flight" else "real SessionManager.startSourceBridge/runBridgeLifecycle with the routing table")
         ctx.violation(key, "%s on %s: %s (events: %s)" % (what, c["backend"], o.get("prop_msg"), "; ".join(o.get("events", []))),
                       {"probe": c, "observed": o})
 
@@ -714,7 +719,7 @@ def run(ctx, only_cases=None, only_probes=None):
     ctx.coverage.update({
         "evaluations": len(cases) + len(invalid) + len(probes) + len(bridges) + len(concs), "distinct_nontrivial": len(nontrivial),
         "bridge_lifecycle_failures": nbridge_fail, "concurrency_failures": nconc_fail,
-        "bridge_lifecycle_samples": [{"backend": c["backend"], "way": c.get("way") or c["stream"], "events": o["events"]} for c, o in list(zip(bridges, bridge_out))[:6]],
+        "bridge_lifecycle_samples": [{"backend": c["backend"], "way": c.get("way") or c["stream"], "events": o["events"]} for c, o in list(zip(bridges, bridge_out))[:6] if "events" in o],
         "forwards_judged": sum(o["judged"] for c, o in zip(bridges, bridge_out) if c["stream"] == "forward"),
         "calls_with_injected_shared_tier_fault": sum(1 for c, o in zip(cases, outs) for ob in o["obs"] if ob.get("fault")),
         "rule": "histories of register/lookup/remove/expire (+node-address) operations over 3 tunnel ids and 2-3 RoutingTable "
